@@ -115,6 +115,16 @@ add("C17", "other",
     "binary with piped input (lines up to 20000 bytes, with/without final newline).", COMMON_NOTE,
     "Coq proofs of the text round trip + translator-regenerated built-in trees + oracle testing of the Go code and binary")
 
+add("C14", "other",
+    "Partial. Proved in Coq about the lexer model (PropC14.v): UTF-8 decoding of ASCII and progress, totality of the state "
+    "functions, continuation of operator runs, and that an emitted token's text and span are the input slice between from and to. "
+    "The whole-stream invariants are not proved; every clause of the property (order, disjoint spans, text = slice, gaps are "
+    "blanks/comments, longest operator runs, one end-of-line token per line break, EOL+EOF once at the end, layout insensitivity) "
+    "is evaluated on the token streams of the real lexer over exhaustive short strings, token soup and random bytes; the lexer "
+    "model is compared token for token (kind, text, span, error message) with lexer.Lexer on every input. K4 (decoded \\n in "
+    "string literal text, pinned by the repository's own test) is a known finding.", COMMON_NOTE,
+    "property clauses evaluated on real token streams + token-level correspondence with the Coq lexer model + table theorems")
+
 PENDING_REASON = "check under construction in this round (the technique applies; see DESIGN.md section 6); not yet claimed"
 
 
